@@ -83,11 +83,23 @@ class UserAddEdge(ActionGroup):
                 UpdateTrackIDs(self.tracks, target, new_track_id, new_lineage_id)
             )
         elif out_degree_source == 1:  # creating a division
-            # assign a new track id to existing child (lineage stays the same)
+            # assign a new track id to existing child (its lineage stays the same)
             successor = next(iter(self.tracks.graph.successors(source)))
             self.actions.append(
                 UpdateTrackIDs(self.tracks, successor, self.tracks.get_next_track_id())
             )
+            # the target and everything downstream of it join the lineage of the
+            # source (the track id of the target stays the same)
+            new_lineage_id = self.tracks.get_lineage_id(source)
+            if new_lineage_id is not None:
+                self.actions.append(
+                    UpdateTrackIDs(
+                        self.tracks,
+                        target,
+                        self.tracks.get_track_id(target),
+                        new_lineage_id,
+                    )
+                )
         else:
             raise InvalidActionError(
                 f"Expected degree of 0 or 1 before adding edge, got {out_degree_source}"
